@@ -26,6 +26,7 @@ def run(eng, ctx):
     SH.single_consumer(eng, ctx, "C01.D6")
     SH.read_returns(eng, ctx, "C01.D7", m)
     SH.assembler_result(eng, ctx, "C01.D8", m)
+    SH.class_level_state(eng, ctx, "C13.D6", classes={eng.reader_cls, eng.socket_cls})  # "a contiguous slice of THE input stream": no bytes from another reader / connection
     SH.crc_transfer(eng, ctx, "C08.D1")
     SH.identity_bits(eng, ctx, "C15.D1")
     from .C07 import payload_verbatim
